@@ -269,6 +269,7 @@ type treeGen struct {
 	finite bool // only finite values (WKT, GeoJSON)
 	simple bool // small readable values, valid shapes
 	ringNo int
+	sliver bool // rings are triangles a few ulps wide
 }
 
 func (g *treeGen) val(zm bool) float64 {
@@ -316,6 +317,10 @@ func (g *treeGen) ring(ct geom.CoordinatesType) []interface{} {
 			return p
 		}
 		a := mk(ox, 0)
+		if g.sliver {
+			// a valid triangle one to three ulps wide (see fam_sliver.go)
+			return []interface{}{a, mk(ox+k*(math.Nextafter(ox, 2*ox)-ox), 0), mk(ox, k), a}
+		}
 		return []interface{}{a, mk(ox+k, 0), mk(ox, k), a}
 	}
 	r := g.pts(ct, 3, 5)
